@@ -10,6 +10,7 @@
 #include <cmath>
 #include <cstdlib>
 #include <fstream>
+#include <functional>
 #include <iostream>
 #include <limits>
 #include <random>
@@ -248,12 +249,13 @@ template <typename T, typename C> struct observed_builtin
     hep::callback<C> inner;
     T target;
     int rank;
+    bool quiet;   // (an earlier use of the same callback object that is not part of the trace)
     bool operator()(C const& c)
     {
         char const* cls = rel_class<T>(c, target);
         bool ret = inner(c);
         ++iter_no;
-        ev("Callback").i("rank", rank).i("n", (long long) c.results().size()).i("ret", ret ? 1 : 0).s("cls", cls).emit();
+        if (!quiet) ev("Callback").i("rank", rank).i("n", (long long) c.results().size()).i("ret", ret ? 1 : 0).s("cls", cls).emit();
         return ret;
     }
 };
@@ -275,7 +277,7 @@ static int run_id = 0;
 
 template <typename K, typename T>
 static void c12_run(rng& g, int shp, int variant, int world, bool builtin, double target, int stop_at, bool resumed, int mode,
-    std::size_t pre_calls = 20)
+    std::size_t pre_calls = 20, bool reuse = false)
 {
     typedef typename K::chk C;
     std::size_t n = 3 + g.below(3);
@@ -300,7 +302,18 @@ static void c12_run(rng& g, int shp, int variant, int world, bool builtin, doubl
         iter_no = 0; alt_calls = 0; last_hit_iter = -1;
         C r = start;
         int count = 0;
-        if (builtin) r = K::run(shp, variant, start, plan, observed_builtin<T, C>{hep::callback<C>(m, file, T(target)), T(target), 0});
+        if (builtin && reuse)
+        {
+            // one callback object for two runs: it has seen another, imprecise history of the same length as the checkpoint this run starts from
+            observed_builtin<T, C> obs{hep::callback<C>(m, file, T(target)), T(target), 0, true};
+            clog_.on = false;
+            (void) K::run(s_ordinary, K::pre_variant(variant), K::fresh(variant), std::vector<std::size_t>(n0 ? n0 : 2, 30), std::ref(obs));
+            clog_.on = true;
+            obs.quiet = false;
+            iter_no = 0; alt_calls = 0; last_hit_iter = -1;
+            r = K::run(shp, variant, start, plan, std::ref(obs));
+        }
+        else if (builtin) r = K::run(shp, variant, start, plan, observed_builtin<T, C>{hep::callback<C>(m, file, T(target)), T(target), 0, false});
         else r = K::run(shp, variant, start, plan, scripted_cb<C>{stop_at, &count, 0});
         clog_.on = false;
         ev("Returned").i("rank", 0).i("n", (long long) r.results().size()).emit();
@@ -451,6 +464,9 @@ template <typename T> static void c12_family(rng& g, bool thorough)
     // relative error 0.03 each): a target of 0.005 is reached by the combination at the first callback, however imprecise the last result
     c12_run<plain_k<T>, T>(g, s_ordinary, 0, 0, true, 0.005, 0, true, 0, 20000);
     c12_run<vegas_k<T>, T>(g, s_ordinary, 0, 0, true, 0.005, 0, true, 2, 20000);
+    // ... with a callback object that has been used for another (imprecise) run before
+    c12_run<plain_k<T>, T>(g, s_ordinary, 0, 0, true, 0.005, 0, true, 0, 20000, true);
+    c12_run<vegas_k<T>, T>(g, s_ordinary, 0, 0, true, 0.005, 0, true, 0, 20000, true);
     // ... and continued with iterations in which nothing is hit at all: the combination is what it was, the target is reached at the first callback
     c12_run<plain_k<T>, T>(g, s_zero, 0, 0, true, 0.005, 0, true, (int) g.below(4), 20000);
     c12_run<vegas_k<T>, T>(g, s_zero, 0, 0, true, 0.005, 0, true, 0, 20000);
